@@ -54,6 +54,7 @@ type wStep struct {
 	Type    string `json:"type,omitempty"`
 	Payload string `json:"payload,omitempty"`
 	ID      int    `json:"id"`
+	Par     int    `json:"par,omitempty"` // stop: that many concurrent Stop calls (released together)
 }
 
 type wIn struct {
@@ -419,7 +420,32 @@ func init() {
 					o.Status = "blocked"
 				}
 			case "stop":
-				if timed(T, w.Stop) {
+				stop := w.Stop
+				if st.Par > 1 {
+					// several owners stop the watch at the same moment (a reflector's deferred Stop and its caller's)
+					stop = func() {
+						var wg sync.WaitGroup
+						gate := make(chan struct{})
+						for k := 0; k < st.Par; k++ {
+							wg.Add(1)
+							go func() {
+								defer wg.Done()
+								defer func() {
+									if r := recover(); r != nil {
+										panicMu.Lock()
+										panicsByW[ptr] = append(panicsByW[ptr], fmt.Sprint("Stop: ", r))
+										panicMu.Unlock()
+									}
+								}()
+								<-gate
+								w.Stop()
+							}()
+						}
+						close(gate)
+						wg.Wait()
+					}
+				}
+				if timed(T, stop) {
 					o.Status = "completed"
 				} else {
 					o.Status = "blocked"
